@@ -131,9 +131,13 @@ def _gen_rule(rng):
 
 
 def _gen_slave(rng):
+    # a slave's own interval is irrelevant under a switch (the switch is the
+    # service; it steps the selected slave with the switch's interval): drawn
+    # independently so that nothing may silently depend on the two being equal
+    own = rng.choice([None, None, 0.25, 0.5, 2.0, 4.0])
     if rng.random() < 0.5:
-        return {"k": "linear", "rate": rng.choice([0.5, 1.0, 2.0]), "low": 0.25, "high": 0.75}
-    return {"k": "relsupply", "low_scale": 0.5, "high_scale": 2.0, "low": 0.25, "high": 0.75}
+        return {"k": "linear", "rate": rng.choice([0.5, 1.0, 2.0]), "low": 0.25, "high": 0.75, "own_interval_factor": own}
+    return {"k": "relsupply", "low_scale": 0.5, "high_scale": 2.0, "low": 0.25, "high": 0.75, "own_interval_factor": own}
 
 
 def _rule_ref(rule, state, interval):
@@ -224,9 +228,10 @@ def run(scenario, tape_values):
             return unbound.s(interval=interval) >> pool
         if kind == "switch":
             def mk(s):
+                own = interval * (s.get("own_interval_factor") or 1)
                 if s["k"] == "linear":
-                    return LinearController(None, low_utilisation=s["low"], high_allocation=s["high"], rate=s["rate"], interval=interval)
-                return RelativeSupplyController(None, low_utilisation=s["low"], high_allocation=s["high"], low_scale=s["low_scale"], high_scale=s["high_scale"], interval=interval)
+                    return LinearController(None, low_utilisation=s["low"], high_allocation=s["high"], rate=s["rate"], interval=own)
+                return RelativeSupplyController(None, low_utilisation=s["low"], high_allocation=s["high"], low_scale=s["low_scale"], high_scale=s["high_scale"], interval=own)
 
             slaves = []
             ths = [s["demand"] for s in params["slaves"]]
